@@ -95,6 +95,11 @@ func Main(m *testing.M) {
 	}
 	Shard = envInt("VERIF_SHARD", 0)
 	NShards = envInt("VERIF_NSHARDS", 1)
+	for _, a := range os.Args { // a native-fuzz worker process: its journal, hang dump and replay files are its own
+		if strings.HasPrefix(a, "-test.fuzzworker") {
+			Shard = os.Getpid()
+		}
+	}
 	OutDir = os.Getenv("VERIF_OUT")
 	Replay = os.Getenv("VERIF_REPLAY")
 	if OutDir == "" {
